@@ -15,7 +15,7 @@ func TestProbeUnjudged(t *testing.T) {
 	}
 	best := 1 << 30
 	var bestOut []byte
-	for seed := int64(1); seed < 15000; seed++ {
+	for seed := int64(1); seed < 9000; seed++ {
 		res := Run(rand.New(rand.NewSource(seed)), Options{Family: os.Getenv("PROBE")})
 		if res.Conflict != nil && res.Hypothesis == "" && len(res.Nodes) < best {
 			best = len(res.Nodes)
@@ -23,6 +23,7 @@ func TestProbeUnjudged(t *testing.T) {
 			out := map[string]any{"seed": seed, "scenario": res.Describe(), "conflict": c, "A": res.Branch(c.A), "B": res.Branch(c.B), "chg": res.Nodes}
 			delete(out, "chg")
 			bestOut, _ = json.MarshalIndent(out, "", " ")
+			os.WriteFile("/dev/shm/c01mut/probe.json", bestOut, 0o644)
 		}
 	}
 	os.WriteFile("/dev/shm/c01mut/probe.json", bestOut, 0o644)
